@@ -44,6 +44,28 @@ impl Policy for NopPolicy {
     fn uninstall(_e: &Env, _context_rule: ContextRule, _smart_account: Address) {}
 }
 
+/// As `NopPolicy`, but its `uninstall` hook fails: the account documents that the removal is
+/// completed all the same.
+#[contract]
+pub struct FailingUninstallPolicy;
+
+#[contractimpl]
+impl Policy for FailingUninstallPolicy {
+    type AccountParams = Val;
+
+    fn can_enforce(_e: &Env, _context: Context, _authenticated_signers: Vec<Signer>, _context_rule: ContextRule, _smart_account: Address) -> bool {
+        true
+    }
+
+    fn enforce(_e: &Env, _context: Context, _authenticated_signers: Vec<Signer>, _context_rule: ContextRule, _smart_account: Address) {}
+
+    fn install(_e: &Env, _install_params: Self::AccountParams, _context_rule: ContextRule, _smart_account: Address) {}
+
+    fn uninstall(_e: &Env, _context_rule: ContextRule, _smart_account: Address) {
+        panic!("policy fails to uninstall");
+    }
+}
+
 #[contract]
 pub struct ComplianceReg;
 
